@@ -1011,6 +1011,9 @@ def rotate_shift_mask_simplifier(a, b):
     bitwidth = lshift_ + rshift_
     if bitwidth not in (32, 64):
         return None
+    if a_00.size() != bitwidth:
+        # (A << 16) | (A >> 16) is a rotation of a 32-bit A only
+        return None
 
     # is the second argument a mask?
     # Note: the following check can be further loosen if we want to support more masks.
